@@ -89,8 +89,8 @@ def cg(
         residual_flat = residual.flatten()
         residual_norm_squared = torch.vdot(residual_flat, residual_flat).real
 
-        # check if the solution is already accurate enough
-        if tolerance != 0 and (residual_norm_squared < tolerance**2):
+        # check if the solution is exact or already accurate enough
+        if residual_norm_squared == 0 or (tolerance != 0 and (residual_norm_squared < tolerance**2)):
             return solution
 
         if residual_norm_squared_previous is not None:  # not first iteration
